@@ -61,6 +61,68 @@ def rat_sign(r, signs):
     return a * b
 
 
+def _pos_monomial_split(p, signs):
+    """p = (monomial in positive variables) * rest."""
+    g = _content(p)
+    mono = {v: e for v, e in g.items() if signs.is_pos_var(v)}
+    return mono, _div_mono(p, mono)
+
+
+def cancel_mono(r):
+    """Cancel the common monomial factor of numerator and denominator."""
+    if r.d.is_const() or not r.n.t:
+        return r
+    gn, gd = _content(r.n), _content(r.d)
+    common = {v: min(e, gd[v]) for v, e in gn.items() if v in gd}
+    common = {v: e for v, e in common.items() if e > 0}
+    if not common:
+        return r
+    return Rat(_div_mono(r.n, common), _div_mono(r.d, common))
+
+
+def log_nf(r, signs):
+    """log r for positive r: quotients and monomial factors in positive
+    variables are split off,  log(c x^a A / (y^b B)) = a log x - b log y +
+    log(c A) - log(B)."""
+    r = reduce_full(r)
+    if r.is_const() and r.constant() == 1:
+        return Rat.const(0)
+    out = Rat.const(0)
+    for pol, sgn in ((r.n, 1), (r.d, -1)):
+        if pol.is_const() and pol.constant() == 1:
+            continue
+        mono, rest = _pos_monomial_split(pol, signs)
+        for v, e in mono.items():
+            out = out + sgn * e * Rat.var(satom('log', Rat.var(v)))
+        if not (rest.is_const() and rest.constant() == 1):
+            out = out + sgn * Rat.var(satom('log', Rat(rest)))
+    return out
+
+
+def exp_nf(r, signs):
+    """exp r with exp(k log z) = z^k for integer k pulled out."""
+    r = cancel_mono(reduce_full(r))
+    if r.is_zero():
+        return Rat.const(1)
+    if not r.d.is_const():
+        return Rat.var(satom('exp', r))
+    dc = r.d.constant()
+    fac = Rat.const(1)
+    rest = {}
+    for m, c in r.n.t.items():
+        c = c / dc
+        if len(m) == 1 and m[0][1] == 1 and isinstance(m[0][0], SAtom) and \
+                m[0][0][0] == 'log' and c.denominator == 1:
+            z = m[0][0][1]
+            fac = fac * (z ** int(c) if c > 0 else
+                         Rat.const(1) / z ** int(-c))
+        else:
+            rest[m] = c
+    if not rest:
+        return fac
+    return fac * Rat.var(satom('exp', Rat(Poly(rest))))
+
+
 def ired(r):
     """Reduce modulo I**2 = -1."""
     if 'I' in r.vars():
